@@ -13,9 +13,9 @@
 #ifndef SC
 #define SC 0
 #endif
-enum { K_WAIT, K_NOTIFY };
+enum { K_WAIT, K_NOTIFY, K_STORE_NOTIFY };   /* K_STORE_NOTIFY: change the cell, then notify (the canonical wake-up idiom) */
 typedef struct { int kind; uint32_t addr; uint64_t expect; int64_t timeout; int wait64; uint32_t count;
-                 int started, done; uint32_t ret; int blocked, ever_blocked; pthread_cond_t* cond; int tokens; int spurious_left; } Agent;
+                 int started, done, stored; uint32_t ret; int blocked, ever_blocked; pthread_cond_t* cond; int tokens; int spurious_left; } Agent;
 static Agent A[NA]; static int cur = -1; static int mutex_held; static int nstarted_total;
 static int pending_wakes[2];         /* per address slot (0 / 16): notify results not yet consumed by a waiter returning 0 */
 static int aslot(uint32_t a) { return a == 0 ? 0 : 1; }
@@ -27,7 +27,15 @@ static int waiter_status_notified(pthread_cond_t* c);
 
 int pthread_mutex_init(pthread_mutex_t* m, const pthread_mutexattr_t* a) { (void)m; (void)a; return 0; }
 int pthread_mutex_destroy(pthread_mutex_t* m) { (void)m; return 0; }
-int pthread_mutex_lock(pthread_mutex_t* m) { (void)m; V_ASSERT(!mutex_held, "mutex is never requested while held (no self-deadlock)"); mutex_held = 1; return 0; }
+static void run_others(void);
+#if SC >= 6
+/* in the store+notify scenarios a request for the mutex is a yield point as well: other agents may run (to completion or
+   until they block) between whatever the caller did before asking for the mutex and its critical section */
+#define LOCK_YIELD() do { int me_ = cur; run_others(); cur = me_; V_ASSERT(!mutex_held, "mutex is free again when the scheduler returns to a lock request"); } while (0)
+#else
+#define LOCK_YIELD() do { } while (0)
+#endif
+int pthread_mutex_lock(pthread_mutex_t* m) { (void)m; V_ASSERT(!mutex_held, "mutex is never requested while held (no self-deadlock)"); LOCK_YIELD(); mutex_held = 1; return 0; }
 int pthread_mutex_unlock(pthread_mutex_t* m) { (void)m; V_ASSERT(mutex_held, "mutex is only released by its holder"); mutex_held = 0; return 0; }
 int pthread_cond_init(pthread_cond_t* c, const pthread_condattr_t* a) { (void)c; (void)a; return 0; }
 int pthread_cond_destroy(pthread_cond_t* c) { int k; for (k = 0; k < NA; k++) V_ASSERT(!(A[k].blocked && A[k].cond == c), "condition variable is not destroyed while a waiter blocks on it"); return 0; }
@@ -61,7 +69,11 @@ static int block(pthread_cond_t* c, int timed) { int me = cur; int woke = 0;
     if (timed && (nd8() & 1)) { mutex_held = 1; A[me].blocked = 0; cur = me; return ETIMEDOUT; }   /* the deadline may pass at any time, also after a signal */
     if (A[me].tokens > 0) { A[me].tokens--; woke = 1; }
     else if (A[me].spurious_left > 0 && (nd8() & 1)) { A[me].spurious_left--; woke = 1; }
-    if (!woke) { V_ASSERT(!waiter_status_notified(c), "a waiter that was marked notified always has a pending wake-up (no lost wake-up)");
+    if (!woke) { int k2; V_ASSERT(!waiter_status_notified(c), "a waiter that was marked notified always has a pending wake-up (no lost wake-up)");
+        /* this waiter compared the cell before the store (otherwise it would have returned 1), so the notify that followed
+           the store came after the comparison: it must have found the waiter unless it had already woken as many as it asked for */
+        for (k2 = 0; k2 < NA; k2++) if (A[k2].kind == K_STORE_NOTIFY && A[k2].done && A[k2].addr == A[me].addr)
+            V_ASSERT(A[k2].ret >= A[k2].count, "a waiter whose comparison preceded a store is visible to the notify that follows the store (comparison and enqueueing are one atomic step: no lost wake-up)");
         V_STOP();  /* nothing in this schedule can wake the agent: an infinite wait, cut here */
 #ifndef REPLAY
         while (1) { }
@@ -94,7 +106,13 @@ static void run_wait(Agent* a) {
         int differs = a->wait64 ? cell(a->addr, 1) != a->expect : (uint32_t)cell(a->addr, 0) != (uint32_t)a->expect;
         a->ret = wasmMemoryAtomicWait(&mem, a->addr, a->expect, a->timeout, a->wait64 != 0);
         V_ASSERT(!mutex_held, "wait returns with the mutex released");
+#if SC >= 6
+        { int k2, st = 0; for (k2 = 0; k2 < NA; k2++) if (A[k2].kind == K_STORE_NOTIFY && A[k2].stored && A[k2].addr == a->addr) st = 1;
+          V_ASSERT(!differs || a->ret == 1, "wait returns 1 when the cell differs from the expected value from the start");
+          V_ASSERT(a->ret != 1 || differs || st, "wait returns 1 only if the cell differed at some time"); }
+#else
         V_ASSERT((a->ret == 1) == (differs != 0), "wait returns 1 (not-equal) exactly when the cell differs from the expected value");
+#endif
         if (a->ret == 1) V_ASSERT(!a->ever_blocked, "a not-equal wait never blocks");
         else { V_ASSERT(a->ret == 0 || a->ret == 2, "wait returns 0, 1 or 2");
             if (a->ret == 0) { V_ASSERT(pending_wakes[aslot(a->addr)] > 0, "a waiter returns 0 only if a notify on its address counted it (no cross-address wake, counted at most once)"); pending_wakes[aslot(a->addr)]--; }
@@ -106,8 +124,22 @@ static void run_notify(Agent* a) {
         V_ASSERT(!mutex_held, "notify returns with the mutex released");
         V_ASSERT(a->ret == want, "notify returns min(count, waiters blocked on that address and not yet counted): started waiters are visible, at most count are woken");
         pending_wakes[aslot(a->addr)] += (int)a->ret; }
+static void run_store_notify(Agent* a) {
+        cells[a->addr] ^= 0x5A; a->stored = 1;       /* the cell now differs from what it was (first byte changed: visible to 32- and 64-bit waits) */
+        a->ret = wasmMemoryAtomicNotify(&mem, a->addr, a->count);
+        V_ASSERT(!mutex_held, "notify returns with the mutex released");
+        V_ASSERT(a->ret <= a->count && (int)a->ret <= blocked_on(a->addr) + NA, "notify wakes at most the requested number");
+        pending_wakes[aslot(a->addr)] += (int)a->ret; }
 /* scenario table: kind of agent k */
-#if SC == 0 || SC == 1
+#if SC == 6
+#define KIND0 K_WAIT
+#define KIND1 K_STORE_NOTIFY
+#define KIND2 K_STORE_NOTIFY
+#elif SC == 7
+#define KIND0 K_WAIT
+#define KIND1 K_WAIT
+#define KIND2 K_STORE_NOTIFY
+#elif SC == 0 || SC == 1
 #define KIND0 K_WAIT
 #define KIND1 K_NOTIFY
 #define KIND2 K_NOTIFY
@@ -121,7 +153,7 @@ static void run_notify(Agent* a) {
 #define KIND2 K_NOTIFY
 #endif
 #define RUN_AGENT(k, KIND) static void run_agent_##k(void) { int saved = cur; cur = k; A[k].started = 1; nstarted_total++; \
-    if (KIND == K_WAIT) run_wait(&A[k]); else run_notify(&A[k]); A[k].done = 1; cur = saved; }
+    if (KIND == K_WAIT) run_wait(&A[k]); else if (KIND == K_NOTIFY) run_notify(&A[k]); else run_store_notify(&A[k]); A[k].done = 1; cur = saved; }
 RUN_AGENT(0, KIND0)
 RUN_AGENT(1, KIND1)
 #if NA > 2
@@ -141,6 +173,10 @@ void harness(void) { int k;
 #endif
 #if SC == 1 || SC == 5    /* first waiter is timed */
     A[0].timeout = (int64_t)(nd32() & 0x7FFFFFFF);
+#endif
+#if SC >= 6               /* waiters expect the value the cell holds at the start; everybody uses one address; the store+notify asks for >= 1 */
+    for (k = 0; k < NA; k++) { A[k].addr = A[0].addr; A[k].wait64 = A[0].wait64; A[k].expect = cell(A[0].addr, A[0].wait64); if (A[k].count == 0) A[k].count = 1; }
+    if (nd8() & 1) A[0].timeout = (int64_t)(nd32() & 0x7FFFFFFF);
 #endif
 #if SC == 4               /* two addresses in the same bucket */
     A[0].addr = 0; A[1].addr = 16;
